@@ -7,11 +7,59 @@ ALL = ["C%02d" % i for i in range(1, 31)]
 
 # id -> (engine, category, technique, level text, level note, design ref)
 CHECKS = {
+ "C01": ("world-det", "exploration", "online trace monitor at the payment crossing over generated malicious-maker histories (real validators, real state machine, simulated chain/Lightning ground truth)",
+         "Each history drives the real taker state machine (swap-out sender or swap-in receiver) with the real Bitcoin/Liquid validators against a scripted maker applying one deviation (amount, asset incl. forged disclosure, blinding, keys, hash, CSV, output position, duplicates, depth/reorg, invoice amount/hash/CLTV, announcement order); at every RebalancePayment crossing the oracle checks depth, output (reference script builder, committed value/asset known to the adversary), invoice and channel against ground truth. Held = no payment outside these conditions in the histories run; honest variants must reach the payment.",
+         "reference watcher reports confirmations truthfully (real watchers are C20); simulated Lightning node decodes invoices; Liquid blinding through real go-elements/secp256k1-zkp.",
+         "DESIGN.md C01"),
  "C02": ("txlab", "exploration",
          "exhaustive witness enumeration through btcd script engine + differential template interpreter",
          "Every witness stack of length <=3 (quick; <=4 thorough, plus boundary sequences at length 4 in quick) over a 12-item labelled alphabet, times 10 sequences x 2 tx versions x {1008,10080,60}, is executed against the script bytes and P2WSH program the real code builds; acceptance is compared with the semantic three-way oracle and the canonical witnesses must be accepted. Held = no accepted stack outside the three ways on what was enumerated.",
          "btcd txscript as consensus reference; Elements rules for these opcodes equal Bitcoin's (template interpreter agrees with btcd on all Bitcoin cases of the same run); sampled only for stacks of length 5-6.",
          "DESIGN.md C02"),
+ "C03": ("world-det", "exploration", "consensus execution + output/fee/ownership oracle on every spending transaction leaving real nodes in simulated swaps",
+         "Real two-node swaps are driven to each ending (preimage, cooperative, CSV, CSV one block early) on both chains with random wallet funding layouts; each spend handed to the chain simulator is executed under consensus rules (btcd engine; template interpreter + Elements sighash + range/surjection proofs for Liquid), BIP68, and checked for single input = swap output, single own-wallet output, fee-only deduction, exact CSV sequence.",
+         "Bitcoin wallet adapter is a harness mirror of clightning_wallet.go over the real onchain.BitcoinOnChain helpers (the real CLN/LND RPC adapters are not executed); Liquid runs the real LiquidOnChain over a simulated elementsd wallet.",
+         "DESIGN.md C03"),
+ "C08": ("world-det", "exploration", "online monitor at the opening_tx_broadcasted send crossing against the transaction the wallet really broadcast",
+         "For each real two-node swap (both chains, both maker roles, random funding layouts: 1-5 inputs, swap output at index 0-3, fee output first/last) every outgoing opening_tx_broadcasted copy is compared with ground truth: tx id, index of the output carrying the reference script for the announced invoice hash, invoice amount/expiry/final CLTV, blinding key (go-elements unblinding) and byte-identity of retransmitted copies.",
+         "Bitcoin wallet adapter is the harness mirror of the CLN adapter; simulated Lightning invoices.",
+         "DESIGN.md C08"),
+ "C11": ("world-det", "exploration", "reference admission predicate (math/big) vs replies of a real node to generated requests under generated configurations",
+         "Generated (policy file, chains enabled, balances, premium rates, channel balances) x (request fields incl. extreme/malformed values) are delivered to a real node with file-backed policy and real premium settings; agreement => admit and not admit => cancel and no agreement are asserted on every reply; the agreement premium is compared with the exact rate arithmetic.",
+         "balances are what the simulated Lightning node/wallet report; one request per channel so that C10 does not interfere.",
+         "DESIGN.md C11"),
+ "C13": ("world-det", "fault_enumeration", "crash-point enumeration with an ordered replay oracle over committed records, outgoing messages and payments",
+         "Both Liquid taker roles are killed at every store write / service call (before and after the effect), restarted through Start+RecoverSwaps and continued; the oracle replays the ordered log: anchor committed (independent bbolt read) before the pubkey-bearing message leaves, never changed afterwards in any incarnation, no payment without anchor; plus height-lookup-failure and moving-tip histories.",
+         "process crashes (kill), not power loss; committed = independent read transaction after the write.",
+         "DESIGN.md C13"),
+ "C14": ("model-at-runtime", "exploration", "round-trip monitor: real store write -> reopen -> fresh store read, compared field by field with the in-memory swap; byte idempotence",
+         "Every record written in 18 real world scenarios (all four roles, every state of the four tables) is compared after reopening with a deep copy of the in-memory machine taken at the write crossing; 10^4 (quick) generated SwapStateMachine values with extreme/empty/long fields are round-tripped through create and update paths.",
+         "LastErr is compared through LastErrString as the record format intends; LastMessage (never assigned by the code) is excluded.",
+         "DESIGN.md C14"),
+ "C15": ("world-det", "fault_enumeration", "crash-point enumeration (before/after effect at every boundary crossing) with offline exactly-once oracles over the recorded history",
+         "All four roles x both chains: the victim is killed at each of its boundary crossings in both flavours, restarted via Start+RecoverSwaps, the peer continues; oracle: <=1 funding tx accepted by the chain, <=1 settled payment per (payer, hash), no pay crossing after a committed SwapCanceled, re-sent request/agreement byte-identical, no panic during recovery.",
+         "second completion of one invoice is ultimately prevented by the Lightning node's de-duplication, which the ledger models; crash = kill (no torn writes).",
+         "DESIGN.md C15"),
+ "C25": ("model-at-runtime", "exploration", "model-based operation sequences against the real file-backed policy with live/fresh-from-file/reload comparison after every op",
+         "640 (quick) seeded op sequences (<=40 ops: add/remove allowlist and suspicious, disable/enable, reload, restart, invalid pubkeys) over 8 pre-existing file classes incl. no trailing newline and spaces around '='; after every op the live answers, a fresh CreateFromFile and ReloadFile must equal the reference model and rejected ops must change neither answers nor file bytes.",
+         "reference model parses the documented key=value format; list order is not compared.",
+         "DESIGN.md C25"),
+ "C27": ("model-at-runtime", "exploration", "math/big arithmetic oracle, persistent-map model incl. reopen, porcupine linearizability of concurrent rate operations, advertised-rate comparison on captured poll payloads",
+         "Compute is compared with trunc(amount*rate/1e6) over boundary x random amounts/rates; 300 set/get/delete/reopen sequences against a model map; 30 concurrent rounds (8 goroutines) checked with porcupine; 1440 poll payloads sent by the real PeerSync are compared with Setting.GetRate for that peer.",
+         "results that do not fit the int64 return type are outside the oracle's domain.",
+         "DESIGN.md C27"),
+ "C28": ("model-at-runtime", "exploration", "model-based step sequences against the real PeerSync over a fake Lightning port, incl. inbound polls injected while a poll round is in flight",
+         "600 (quick) sequences of inbound poll/request_poll (versions 0/6/7/8, invalid payloads), connect/disconnect, PollAllPeers/ForcePollAllPeers, cleanup sweep, reopen and back-dated timestamps; oracle = reference model of capability (last accepted poll, lower version not accepted), reload identity, cleanup only for expired and disconnected peers, request_poll at most once between disconnects, compatibility <=> stored version 7.",
+         "time.Now cannot be hooked: clock advance is emulated by back-dating stored timestamps; 'allowed again after the interval' is not observable.",
+         "DESIGN.md C28"),
+ "C29": ("model-at-runtime", "exploration", "exhaustive (state x stored-version class) single-record stores plus random mixtures through the real SafeUpgrade with before/after snapshots",
+         "All 58 (table, state) pairs x 14 stored-version values (absent/current/older/newer/junk), with and without restart, plus 1500 mixtures of 0-6 harvested records: with any non-terminal swap and a version that would have to be replaced SafeUpgrade must fail and leave version and swap bytes unchanged; otherwise the version becomes current and swap bytes are unchanged.",
+         "'startup fails' is demanded only when the stored version differs from the current one (see DESIGN corrections).",
+         "DESIGN.md C29"),
+ "C30": ("model-at-runtime", "exploration", "reference parser / exact-rational fee oracle / order-law checks on generated estimator answers and version strings",
+         "~10^5 cases: DetermineFeeFloor vs reference parser, GetFee vs floor and fallback rules (1 sat tolerance), GBitcoindEstimator over a fake backend, CompareVersionStrings vs math/big lexicographic reference plus reflexivity/totality/transitivity/antisymmetry on triples.",
+         "estimator answers bounded by btcutil.MaxSatoshi, version components for the fee floor below 2^31.",
+         "DESIGN.md C30"),
 }
 
 NOT_YET = "monitor not built yet in this round; see DESIGN.md section 7 for the build order"
@@ -53,12 +101,12 @@ def main():
     print("checks:", len(checks), "not_applicable:", len(na))
 
 NA = {}
-HOOK_COMMITS = ["979c0a1", "95de7f2"]
+HOOK_COMMITS = ["979c0a1", "95de7f2", "9fafd20"]
 ENGINES = [
- {"name": "world-det", "path": "harness/sim + harness/props", "kind_free_text": "deterministic simulated world around real swap services (chains, Lightning ledger, wallets, bus, virtual timers, crash injection at the node boundary) with online/offline monitors", "serves_properties": []},
+ {"name": "world-det", "path": "harness/sim + harness/props", "kind_free_text": "deterministic simulated world around real swap services (chains, Lightning ledger, wallets, bus, virtual timers, crash injection at the node boundary) with online/offline monitors", "serves_properties": ["C01","C03","C08","C11","C13","C15"]},
  {"name": "world-real", "path": "harness/sim + harness/props (race build)", "kind_free_text": "real watchers/retransmitters with concurrent stimuli under the Go race detector and goroutine-dump lock-cycle analysis", "serves_properties": []},
  {"name": "txlab", "path": "harness/ref/tmpl + harness/props", "kind_free_text": "script/transaction laboratory: btcd script engine, independent template interpreter, Liquid confidential transactions", "serves_properties": ["C02"]},
- {"name": "model-at-runtime", "path": "harness/props", "kind_free_text": "model-based operation sequences against real components with a reference model as oracle (porcupine for concurrent histories)", "serves_properties": []},
+ {"name": "model-at-runtime", "path": "harness/props", "kind_free_text": "model-based operation sequences against real components with a reference model as oracle (porcupine for concurrent histories)", "serves_properties": ["C14","C25","C27","C28","C29","C30"]},
 ]
 
 if __name__ == "__main__":
